@@ -79,7 +79,9 @@ private:
            << " E=" << document.get_errors().size() << " W=" << document.get_warnings().size();
         if (identDetails && p.name == "expr_identifier" && !thrown && fragments.size() > 0 && fragments[0].get_kind() == IDENTIFIER) {
             symbol_t s = fragments[0].get_symbol();
-            os << " B=" << s.get_position().start << ":" << frameKind(s) << ":" << vh::kindName(s.get_type().get_kind());
+            std::string ts = vh::tsexp(s.get_type());
+            for (char& c : ts) if (c == ' ') c = '_';
+            os << " B=" << s.get_position().start << ":" << frameKind(s) << ":" << vh::kindName(s.get_type().get_kind()) << " BT=" << ts;
         }
         log.push_back(os.str());
     }
